@@ -104,7 +104,7 @@ stmt: "if"i cond "then" stmt -> ifs
     | [NUM] [NAME] "." -> opt
     | "unless" cond stmt -> unl
 cond: NAME ("==" | "!=") (NAME | NUM) | "not" cond
-NAME.1: /[a-z]+/i
+NAME: /[a-z]+/i
 NUM: /[0-9]+/
 %ignore /[ \t\n]+/
 '''
